@@ -3,9 +3,11 @@
    Model: Run/Counters.v (the events of a history, read off the behaviour of
    the loader model) beside the counter fields of Run/Loader.v, with
    CompileAndRun after "fix: count a load refused by the metric store as a
-   program load error".  log_lines_total / log_count belong to the tailer
-   models (C15, C18); here they are reconciled by the harness only. *)
-From V Require Import Metrics.StoreAdd Run.Loader Run.Counters Proofs.CountersProofs.
+   program load error"; Run/TailCounters.v (the tailer's log_lines_total and
+   log_count and the hand-over of every sent line to the loader's lines_total,
+   a stream being the LineReader specification of Tail/LineReader.v). *)
+From V Require Import Metrics.StoreAdd Run.Loader Run.Counters Run.TailCounters Proofs.CountersProofs
+  Proofs.TailCountersProofs.
 Local Open Scope N_scope.
 
 (* For every history of loads (any text: new, identical, not compiling,
@@ -52,6 +54,41 @@ Example C25_counters_example :
    ps_errs (getp w_p st)) = (2, 1, 1, 1, 1, 1).
 Proof. vm_compute. reflexivity. Qed.
 
+(* ---- tailer side ---- *)
+(* For every history of tailer events (a path picked up by the pattern poll,
+   bytes read from a tailed file in any chunking, a source that vanished) over
+   any files: each log's line count is the number of lines its stream sent. *)
+Theorem C25_stream_counted_exact :
+  forall (evs : list tev) (f : bytes),
+    counted (trun ts_empty evs) f = sent_from f (ts_out (trun ts_empty evs)).
+Proof. exact stream_counted_exact. Qed.
+
+(* log_count is the number of logs being tailed *)
+Theorem C25_log_count_exact :
+  forall evs : list tev,
+    ts_log_count (trun ts_empty evs) = Z.of_nat (length (ts_open (trun ts_empty evs))).
+Proof. exact log_count_exact. Qed.
+
+(* the lines received by the program loader are the lines sent by all streams
+   (and, by C25_stream_counted_exact, the sum of the per-log counts) *)
+Theorem C25_lines_total_exact :
+  forall vmstep lid now (evs : list tev),
+    let x := prun vmstep lid now (ts_empty, st_empty) evs in
+    st_lines (snd x) = N.of_nat (length (ts_out (fst x))) /\ fst x = trun ts_empty evs.
+Proof. intros. split; [apply lines_total_exact|apply prun_fst]. Qed.
+
+(* non-vacuity: a.log is picked up, gets "x\ny" (one line, "y" pending), then
+   "\n\n" (y and an empty line), then "z" and vanishes (z is flushed) *)
+Example C25_tail_example :
+  let a := [97] in
+  let ts := trun ts_empty [TOpen a; TRead a [120; 10; 121]; TRead a [10; 10]; TRead a [122]; TEnd a] in
+  (counted ts a, ts_log_count ts, map snd (ts_out ts)) = (4, 0%Z, [[120]; [121]; []; [122]]).
+Proof. vm_compute. reflexivity. Qed.
+
 Print Assumptions C25_counters_exact.
+Print Assumptions C25_stream_counted_exact.
+Print Assumptions C25_log_count_exact.
+Print Assumptions C25_lines_total_exact.
+Print Assumptions C25_tail_example.
 Print Assumptions C25_refused_uncounted_refuted.
 Print Assumptions C25_counters_example.
